@@ -689,10 +689,23 @@ def r4_acceptance(ctx):
         if o.kind != 'backedge' or not o.locals:
             continue
         head = [e for e in o.events if e[0] == 'loop_head'][-1]
-        for l, t in o.locals.items():
-            if t[0] == 'bin' and t[1] == 'Add' and ('lv', head[2], l) in (t[2], t[3]) and any(s[0] == 'call' and s[1].endswith('::len') for s in subterms(t)):
-                # the value formatted into the line is the loop-carried (pre-increment) total
-                okoff = head[3].get(l) == C(0)
+        # the running total: a loop-carried local (loop form) or the accumulator of a fold (adapter form), initial value 0,
+        # next value = total + table.len()
+        cands = list(o.locals.items())
+        if o.value is not None:
+            cands += [(k_, o.value) for k_ in head[3] if isinstance(k_, str)]
+        for l, t in cands:
+            carried = ('lv', head[2], l)
+            if t[0] == 'bin' and t[1] == 'Add' and carried in (t[2], t[3]) and any(s[0] == 'call' and s[1].endswith('::len') for s in subterms(t)):
+                # ... and the value formatted after "offset: " in this iteration's line is the carried (pre-increment) total
+                written = False
+                for e in o.events:
+                    if e[0] == 'call' and e[1].endswith('write_fmt') and e[2][1][0] == 'fmtargs' and e[2][1][1][0] == 'concat':
+                        parts = e[2][1][1][1]
+                        for i_, p_ in enumerate(parts[:-1]):
+                            if p_[0] == 'c' and isinstance(p_[1], str) and p_[1].endswith('offset: '):
+                                written = parts[i_ + 1] == ('disp', carried)
+                okoff = head[3].get(l) == C(0) and written
     ctx.ob(rule, name, 'offset = running total of table sizes, written before adding this table', okoff, expected='total starts at 0; total += table.len() after writing')
 
 
